@@ -429,6 +429,12 @@ def _process_worker(
             workers timeout.
         current_depth: Nested parallelism level, to avoid infinite spawning.
     """
+    # set the global _CURRENT_DEPTH mechanism to limit recursive call. This is
+    # done before running the initializer, so that an executor created by the
+    # initializer is checked against (and ships) the depth of this worker.
+    global _CURRENT_DEPTH
+    _CURRENT_DEPTH = current_depth
+
     if initializer is not None:
         try:
             initializer(*initargs)
@@ -438,9 +444,6 @@ def _process_worker(
             # mark the pool broken
             return
 
-    # set the global _CURRENT_DEPTH mechanism to limit recursive call
-    global _CURRENT_DEPTH
-    _CURRENT_DEPTH = current_depth
     _process_reference_size = None
     _last_memory_leak_check = None
     pid = os.getpid()
